@@ -702,7 +702,7 @@ def reachdist(CIJ, ensure_binary=True):
         CIJ = binarize(CIJ)
 
     R = CIJ.copy()
-    D = CIJ.copy()
+    D = CIJ.copy().astype(float)
     powr = 2
     n = len(CIJ)
     CIJpwr = CIJ.copy()
